@@ -124,6 +124,8 @@ def run(ctx, chk, tier="quick"):
         "zeta_interval INSERT, and column <-> generator agreement of the grid_time_flags INSERT."
     )
     chk.assumptions = ["get_true_interval_masks labels maximal runs (numpy cumsum labelling; leading-run case decided under C01.O3)"]
+    from ..sqlrules import conflict_clauses as _conflict_clauses
+    _conflict_clauses(ctx, chk, "C04.O4", ("classify",), "classify", 'a second classification with another jump threshold keeps interstorm intervals of the first run beside the new thresholds row: recorded intervals are no longer clean under the stored threshold')
     # every data interval reaches the interstorm classification: the loop over them is not cut short by its own body
     from ..typestate import lazy_cursor_loops
     lazy_cursor_loops(ctx, chk, "C04.O5", ("classify",), why="execute on the iterated cursor ends the loop over the data intervals after the first: later records get no flags and no interstorm intervals")
